@@ -24,7 +24,7 @@ CONSTANTS M,         \* modulus of the serial number space
           Sets,      \* data set identifiers
           MaxRuns,   \* bound on the number of runs
           Bases,     \* serials the history may be seeded at (hook H9); {} = natural start only
-          Variant    \* "intended" | "as_shipped"
+          Variant    \* "intended" | "as_shipped" | "truncate_to_keep"
 
 Half == M \div 2
 Add(s, n)  == (s + n) % M
@@ -54,6 +54,8 @@ Cap == IF keep = 0 THEN 1 ELSE keep             \* "at least one"
 Push(q, d) ==
   IF Variant = "as_shipped"
     THEN (IF Len(q) = keep THEN <<d>> \o SubSeq(q, 1, Len(q) - 1) ELSE <<d>> \o q)
+  ELSE IF Variant = "truncate_to_keep"          \* push_front + truncate(keep): nothing left with history-size 0
+    THEN SubSeq(<<d>> \o q, 1, IF Len(q) + 1 < keep THEN Len(q) + 1 ELSE keep)
     ELSE (IF Len(q) >= Cap THEN <<d>> \o SubSeq(q, 1, Cap - 1) ELSE <<d>> \o q)
 
 Init ==
@@ -169,6 +171,11 @@ C13 == cur # NoSet => \A s \in QueryPoints : C13_Query(TRUE, s) /\ C13_Query(FAL
 
 (* C14 *)
 C14_Bounded == Len(deltas) <= Cap
+(* The code has no serial of its own: PayloadHistory::serial() is the target *)
+(* of the newest retained change set, or 0 without one.  The abstract serial *)
+(* must be what that function returns - the reason why push_delta keeps "at  *)
+(* least one delta since it carries the serial" even with history-size 0.    *)
+C14_SerialCarried == serial = (IF deltas = <<>> THEN 0 ELSE deltas[1].to)
 C14_Consecutive ==
   /\ (deltas # <<>> => deltas[1].to = serial)
   /\ \A i \in 1..Len(deltas) : deltas[i].from = Sub(deltas[i].to, 1)
